@@ -408,6 +408,40 @@ theorem exclude_while_matching_witness :
     (constructExonProfile [(2, 4)] (0, 9) 1 [(0, 0), (1, 2), (3, 4), (9, 9)] (-1) (-1)).map (·.gene) = some [-1] ∧
     equal_ranges (3, 4) (2, 4) 1 = true := by decide +kernel
 
+/-! ### class `micro_feature_sweep_skip` (known finding, audit G2) -/
+
+/-- the class predicate of the known finding, for one (known feature, read feature) pair: the read feature equals the
+    known feature within δ, and the known feature is shorter than δ + 1 or the read feature starts at most δ after the
+    end of an earlier read feature.  (The oracle's `micro_class` asks this of the feature itself or of a competitor for the
+    same read feature.) -/
+def MicroPair (δ : Int) (R : List Iv) (k r : Iv) : Prop :=
+  equal_ranges r k δ = true ∧ (k.2 - k.1 < δ ∨ ∃ p, [p, r].Sublist R ∧ r.1 - p.2 ≤ δ)
+
+/-- the class lies outside `Hyp`: under the hypotheses of the `…_partial` theorems no pair is in it -/
+theorem micro_pair_outside_hyp (δ : Int) (K R : List Iv) (hyp : Hyp δ K R) (k r : Iv) (hk : k ∈ K) :
+    ¬ MicroPair δ R k r := by
+  rintro ⟨_, h | ⟨p, hs, hd⟩⟩
+  · have := hyp.long k hk; omega
+  · have := (List.pairwise_cons.mp (List.Pairwise.sublist hs hyp.sep)).1 r (by simp)
+    omega
+
+/-- the audit's exon example: annotated exon 1302-1304 (3 bp, δ = 6), read exon 1299-1301 equals it within δ at both
+    ends without overlapping it; the sweep never compares the pair and the mapped-region test marks the exon −1 -/
+theorem micro_exon_witness :
+    (constructExonProfile [(1100, 1200), (1302, 1304), (1366, 1466)] (1100, 1466) 6 [(1100, 1197), (1299, 1301), (1368, 1466)]
+      (-1) (-1)).map (·.gene) = some [1, -1, 1] ∧
+    MicroPair 6 [(1100, 1197), (1299, 1301), (1368, 1466)] (1302, 1304) (1299, 1301) := by
+  refine ⟨by decide +kernel, by decide +kernel, Or.inl (by decide)⟩
+
+/-- the audit's intron example: read blocks 100-199, 305-306, 369-467 (a 2-bp read exon: read introns 200-304 and 307-368,
+    2 bp apart); annotated intron 304-366 equals read intron 307-368 within δ = 6 but is marked −1 -/
+theorem micro_intron_witness :
+    (constructIntronProfile [(201, 301), (304, 366)] (100, 467) 6 20 [(100, 199), (305, 306), (369, 467)] (-1) (-1)).map (·.gene) =
+      some [1, -1] ∧
+    junctionsFromBlocks [(100, 199), (305, 306), (369, 467)] = [(200, 304), (307, 368)] ∧
+    MicroPair 6 [(200, 304), (307, 368)] (304, 366) (307, 368) := by
+  refine ⟨by decide +kernel, by decide +kernel, by decide +kernel, Or.inr ⟨(200, 304), List.Sublist.refl _, by decide⟩⟩
+
 /-- class `tie_loser_exon` (known finding): the annotated exon (102,200) equals the read's FIRST exon (100,200) within
     δ = 4, loses the tie against (100,200), and is marked −1 (counted as excluded) although it does not lie
     between the read's first and last exon -/
